@@ -7,8 +7,10 @@ import (
 	"encoding/binary"
 	"fmt"
 	"math/rand/v2"
+	"os"
 	"runtime/debug"
 	"sort"
+	"strings"
 	"time"
 
 	"github.com/cometbft/cometbft/abci/types"
@@ -137,6 +139,9 @@ type HistoryConfig struct {
 	Dir     string
 }
 
+// DebugTamper prints details of tampered proposals (development aid).
+var DebugTamper = os.Getenv("VERIF_DEBUG_TAMPER") != ""
+
 // ReplicaDivergence describes a difference between a test replica and the reference.
 type ReplicaDivergence struct {
 	Replica string
@@ -171,6 +176,8 @@ type History struct {
 	Divergences       []*ReplicaDivergence
 	PreconditionLost  string // non-empty: the documented election precondition was lost
 	RejectedProposals int
+	// TamperedProposals counts tampered copies of an own proposal offered to the proposer replica.
+	TamperedProposals int
 	// OwnAbandoned counts round changes in which a test replica built its own (undecided) proposal.
 	OwnAbandoned     int
 	EpochTransitions int
@@ -501,6 +508,57 @@ func (h *History) Step() bool {
 			switch path {
 			case PathReplay:
 			case PathProposer:
+				// A tampered copy of the proposer's own proposal (same header and transaction count,
+				// one signature bit of a transaction that executed successfully flipped) cannot lead
+				// to the state root the metadata transaction commits to, so it must be rejected and
+				// must not be served from what the proposer cached while preparing.
+				if h.Rng.IntN(3) == 0 && ref != nil {
+					var ok []int
+					for ti := 0; ti < len(b.Txs)-1 && ti < len(ref.Txs); ti++ {
+						// (Only when no other transaction of the block could take the altered one's place: a
+						// replayed copy, or a differently encoded envelope around the same signed content,
+						// was rejected for its used nonce only and would now take effect with the same result.)
+						dup := false
+						for tj := 0; tj < len(b.Txs)-1 && tj < len(ref.Txs); tj++ {
+							if tj != ti && (bytes.Equal(b.Txs[tj], b.Txs[ti]) || strings.Contains(ref.Txs[tj].Log, "invalid nonce")) {
+								dup = true
+							}
+						}
+						if ref.Txs[ti].Code == types.CodeTypeOK && !dup {
+							ok = append(ok, ti)
+						}
+					}
+					if len(ok) > 0 {
+						ti := ok[h.Rng.IntN(len(ok))]
+						if raw := flipSignatureBit(b.Txs[ti], h.Rng.IntN(512)); raw != nil {
+							tb := *b
+							tb.Txs = append([][]byte(nil), b.Txs...)
+							tb.Txs[ti] = raw
+							h.TamperedProposals++
+							if DebugTamper {
+								gt := h.Gen.current[ti]
+								fmt.Printf("DEBUG tamper height=%d tx=%d method=%s intent=%s refcode=%d reflog=%q equal=%v\n", height, ti, gt.Method, gt.Intent, ref.Txs[ti].Code, ref.Txs[ti].Log, bytes.Equal(raw, b.Txs[ti]))
+							}
+							acc := r.Process(&tb)
+							if acc && DebugTamper {
+								for tj, gt := range h.Gen.current {
+									if tj < len(ref.Txs) {
+										fmt.Printf("DEBUG   block tx %d %s intent=%s note=%q code=%d log=%q signer=%v nonce=%v\n", tj, gt.Method, gt.Intent, gt.Note, ref.Txs[tj].Code, ref.Txs[tj].Log, gt.Signer != nil && h.Gen.current[ti].Signer == gt.Signer, func() any {
+											if gt.Tx != nil {
+												return gt.Tx.Nonce
+											}
+											return nil
+										}())
+									}
+								}
+							}
+							if acc {
+								h.Divergences = append(h.Divergences, &ReplicaDivergence{Replica: r.Cfg.Name, Path: path.String(), Height: height, What: "tampered-own-proposal-accepted",
+									Detail: fmt.Sprintf("transaction %d of the proposal with one signature bit flipped; ProcessProposal accepted the block", ti)})
+							}
+						}
+					}
+				}
 				if !r.Process(b) {
 					h.RejectedProposals++
 					h.Divergences = append(h.Divergences, &ReplicaDivergence{Replica: r.Cfg.Name, Path: path.String(), Height: height, What: "own-proposal-rejected"})
